@@ -35,7 +35,13 @@ RULE = (
     'hand-written shapes: one workflow template instantiated twice / at two depths, references into both instances, '
     'producers at overlapping locations (u/p and u/u/p) with paths spelled like steps, one reference fanned out to '
     'several consumers, diamond, chain of one template at three depths in both directions, swapped parameter names, '
-    'entry = component; (prefix-names) two producers whose step names are related as strings but are different path '
+    'entry = component; (every-field) one component with a parameter reference in every field that accepts one '
+    '(command.*, workflowAttributes.*, resourceRequest.*, resourceManager.{config,kubernetes,docker,lsf}.*, list '
+    'elements, variables), all parameters defaulted / given / forwarded through two levels / entry = component; '
+    '(entry-override) the arguments of the entry instance given partly by entrypoint.execute[0].args and partly by '
+    'namespace_to_flowir(override_entrypoint_args=...): every split of 3 parameters into {neither, entrypoint, '
+    'override, both} x entry = workflow / component, no and empty override, unknown parameter in the override; '
+    '(prefix-names) two producers whose step names are related as strings but are different path '
     'elements ({a,aa},{a,ab},{a,a-b},{a,a.b},{a,a_b},{sim,sim-post},{a,ba},{p,p.txt}; path none, f.txt, or spelled like '
     'either step), given different arguments and both referenced by one consumer, under all 6 orders of the execute '
     'list, as siblings / handed down through parameters / inside a nested workflow / as names of two workflow steps / '
@@ -43,7 +49,7 @@ RULE = (
     '{x,y,x-I,x-II,I,x1,stage0.x,stage1.x}^3 (thorough adds X,stage1.x-I,x-IV,II) and entry-instance at one position - '
     'a case with a name outside {x,y} is judged "either properly rejected or compiled correctly"; (cycles) data-flow '
     'cycles between siblings and through a nested workflow. Invalid namespaces: every single-site mutation (22 '
-    'operators: unknown / removed argument, removed default, unknown parameter reference in arguments / component / '
+    'operators: unknown / removed argument, removed default, unknown parameter reference in arguments of steps / every field of a component / '
     'entrypoint, reference to unknown / own / uncle step, renamed or dropped nested step or path element, method '
     'inside <>, removed method, unknown template, duplicate template (same and other kind), template recursion (direct '
     'and to the entry workflow), step without execute / execute without step / duplicate execute, missing entrypoint, '
@@ -54,6 +60,10 @@ RULE = (
     'debatable / unmodelled); mutants it classifies valid are judged as valid namespaces. A case is non-trivial if it '
     'has at least one reachable component step or is a mutant; distinct = distinct namespace document.')
 ASSUMPTIONS = [
+    'override_entrypoint_args names the entry arguments it replaces; arguments of entrypoint.execute[0].args it does not '
+    'name stay in force (override > entrypoint arguments > declared default), an empty or absent override changes nothing',
+    'workflowAttributes.isRepeat (derived by FlowIR from repeatInterval) is not compared; %(v)s with v a component '
+    'variable is not modelled, values of variables are compared like any other field',
     'the meaning of a namespace is the one given in the module documentation of experiment.model.frontends.dsl: '
     '%(p)s refers to a parameter of the enclosing template instance, <s/...> is relative to the workflow that spells it, '
     'text appended to a parameter that carries a reference extends that reference',
@@ -97,7 +107,7 @@ def _find_dsl_error(exc):
     return None
 
 
-def _compile(doc):
+def _compile(doc, call):
     import pydantic
     import experiment.model.errors as E
     from experiment.model.frontends.dsl import Namespace, namespace_to_flowir
@@ -107,7 +117,7 @@ def _compile(doc):
         except pydantic.ValidationError as e:
             return {'kind': 'schema-error', 'errors': [{'loc': [str(x) for x in err.get('loc', ())],
                                                         'msg': str(err.get('msg'))[:200]} for err in e.errors()]}
-        flowir = namespace_to_flowir(nsobj)
+        flowir = namespace_to_flowir(nsobj, **copy.deepcopy(call))
         comps = copy.deepcopy(flowir.get_components())
         verrors = [('%s: %s' % (type(x).__name__, x))[:300] for x in flowir.validate()]
         envs = copy.deepcopy((flowir.raw().get('environments') or {}).get('default') or {})
@@ -124,12 +134,12 @@ def _compile(doc):
         return {'kind': 'exception', 'type': type(e).__name__, 'msg': str(e)[:300]}
 
 
-def _observe_once(doc, budget):
+def _observe_once(doc, budget, call):
     try:
         try:
             signal.setitimer(signal.ITIMER_VIRTUAL, budget)
             t0 = time.process_time()
-            r = _compile(doc)
+            r = _compile(doc, call)
             _STATE['max_cpu'] = max(_STATE['max_cpu'], time.process_time() - t0)
             return r
         finally:
@@ -138,14 +148,15 @@ def _observe_once(doc, budget):
         return None
 
 
-def observe(doc, budget=None):
+def observe(doc, budget=None, call=None):
     """Runs the compiler under a CPU-time budget. The first expiries seen by a process are confirmed with a 4x larger
     budget (if the longer run completes, its result is used and the expiry is not reported)."""
     old = signal.signal(signal.SIGVTALRM, _on_timer)
     try:
-        r = _observe_once(doc, budget or CPU_BUDGET)
+        call = call or {}
+        r = _observe_once(doc, budget or CPU_BUDGET, call)
         if r is None and _STATE['confirmed_hangs'] < 2:
-            r = _observe_once(doc, CPU_BUDGET_CONFIRM)
+            r = _observe_once(doc, CPU_BUDGET_CONFIRM, call)
             if r is None:
                 _STATE['confirmed_hangs'] += 1
         if r is None:
@@ -188,6 +199,8 @@ def observed_graph(comps, environments=None):
                 _leaves((k,), sub, fields)
             else:
                 _leaves((k,), c[k], fields)
+        # derived by FlowIR from repeatInterval ('tracked internally'), not a field of the template
+        fields = [f for f in fields if f[0] != 'workflowAttributes.isRepeat']
         tokens = []
         args = c.get('command', {}).get('arguments') or ''
         if not isinstance(args, str):
@@ -272,17 +285,26 @@ def classify(doc):
 def judge(col, case):
     """case: {'family','id','mode','doc', 'mutation': None | {'kind','site'}}"""
     doc = case['doc']
-    verdict, okind, flat = classify(doc)
+    call = {}
+    meant = doc
+    if 'override' in case:
+        # namespace_to_flowir(..., override_entrypoint_args=X): the arguments named in X replace those of the entrypoint,
+        # the other arguments of the entrypoint stay (override > entrypoint.execute args > declared default)
+        call = {'override_entrypoint_args': case['override']}
+        if case['override']:
+            meant = copy.deepcopy(doc)
+            meant['entrypoint']['execute'][0].setdefault('args', {}).update(copy.deepcopy(case['override']))
+    verdict, okind, flat = classify(meant)
     mut = case.get('mutation')
     if mut is None:
-        want = 'invalid' if case['family'] == 'cycles' else 'valid'
+        want = case.get('expect') or ('invalid' if case['family'] == 'cycles' else 'valid')
         if verdict != want:
             raise HarnessError('generator and reference model disagree on %s/%s: %s %s' % (case['family'], case['id'], verdict, okind))
     if verdict == 'valid' and case.get('mode') == 'either':
         verdict = 'either'
     col.evaluated()
-    col.nontriv(G.canon(doc))
-    obs = observe(doc)
+    col.nontriv(G.canon([doc, case.get('override', 'no-override-argument')]))
+    obs = observe(doc, call=call)
     kind = obs['kind']
     short = dict(obs)
     short.pop('environments', None)
@@ -294,7 +316,7 @@ def judge(col, case):
 
     def fail(why, sig):
         col.outcome('FAIL:%s' % sig)
-        col.fail(dict((k, case.get(k)) for k in ('family', 'id', 'mode', 'mutation', 'doc')), why,
+        col.fail(dict((k, case[k]) for k in ('family', 'id', 'mode', 'mutation', 'doc', 'override', 'expect') if k in case), why,
                  {'observed': short, 'expected': expected}, sig='%s|%s' % (tag, sig))
 
     # outcomes that violate the property whatever the namespace means
@@ -383,6 +405,9 @@ def worker(col, item, tier, seed):
     _warm_up()
     for base in bases[lo:hi]:
         case = {'family': base['family'], 'id': base['id'], 'mode': base['mode'], 'doc': base['doc'], 'mutation': None}
+        for k in ('override', 'expect'):
+            if k in base:
+                case[k] = base[k]
         judge(col, case)
         col.count('base_namespaces')
         n = 0
@@ -502,7 +527,21 @@ def _sel_step_name_ends_with_digit(f):
             and _name_ends_with_digit(f['case']['doc']))
 
 
+def _sel_undefined_parameter_in_environment(f):
+    """observation: a bare KeyError; case: some component sets command.environment to %(name)s and `name` is not one of its
+    parameters"""
+    if not f['sig'].endswith('|exception:KeyError'):
+        return False
+    for c in f['case']['doc'].get('components') or []:
+        e = (c.get('command') or {}).get('environment')
+        m = re.match(r'^%\(([A-Za-z0-9_.-]+)\)s$', e) if isinstance(e, str) else None
+        if m and m.group(1) not in [p['name'] for p in c['signature'].get('parameters') or []]:
+            return str((f.get('observed') or {}).get('observed', {}).get('msg', '')).strip("'\"") == m.group(1)
+    return False
+
+
 KNOWN_SELECTORS = {
+    'undefined_parameter_in_environment_keyerror': _sel_undefined_parameter_in_environment,
     'hang_reference_lands_on_workflow': _sel_hang_reference_lands_on_workflow,
     'hang_dataflow_cycle': _sel_hang_dataflow_cycle,
     'generated_component_ids_collide': _sel_generated_ids_collide,
